@@ -20,6 +20,7 @@ type Case struct {
 	Limits      []int // per input step bound; nil = default 2000+200*len
 	OnBounds    bool
 	NamedSlices bool
+	BoundsLayout int
 	LoxText     string // filled in
 	GoText      string // filled in
 }
@@ -62,7 +63,7 @@ func Run(cases []*Case, fast bool) ([]*Out, error) {
 	forge.FastLoader(fast)
 	for _, c := range cases {
 		c.LoxText = c.G.Lox()
-		c.GoText = pgo.UserGo(c.G, pgo.Opts{OnBounds: c.OnBounds, NamedSlices: c.NamedSlices})
+		c.GoText = pgo.UserGo(c.G, pgo.Opts{OnBounds: c.OnBounds, NamedSlices: c.NamedSlices, BoundsLayout: c.BoundsLayout})
 		files := c.G.LoxFiles()
 		files["user.go"] = c.GoText
 		if _, err := b.Add(files); err != nil {
